@@ -466,7 +466,10 @@ def main_check(module: Any, argv: list[str]) -> int:
         if args.only:
             cmd += ["--only", args.only]
         log = open(os.path.join(work, f"shard{k}.log"), "w")
-        procs.append((k, out, log, subprocess.Popen(cmd, stdout=log, stderr=subprocess.STDOUT)))
+        env = dict(os.environ)
+        if tier == "thorough" and hasattr(module, "shard_env"):
+            env.update(module.shard_env(k))
+        procs.append((k, out, log, subprocess.Popen(cmd, stdout=log, stderr=subprocess.STDOUT, env=env)))
     results = []
     harness_errors = []
     for k, out, log, p in procs:
